@@ -15,6 +15,7 @@ import time
 from . import build as _build
 
 JOURNAL_DIR = "/dev/shm"
+STALL = 300  # seconds without a new journal entry before a worker past its budget counts as hung
 
 
 def _send(f, obj):
@@ -177,6 +178,15 @@ def run_shards(prop, variant, specs, tier, seed, nworkers=None, shard_timeout=90
                     workers[workers.index(w)] = nw
                     feed(nw)
             elif now - w.started > shard_timeout:
+                # A shard that is merely slow (loaded machine) still journals new cases: only a worker
+                # whose journal has not moved for STALL seconds is hung.  Progressing shards get up to
+                # 6x the nominal budget.
+                try:
+                    quiet = now - os.stat(w.journal).st_mtime
+                except OSError:
+                    quiet = now - w.started
+                if quiet < STALL and now - w.started < 6 * shard_timeout:
+                    continue
                 del active[fd]
                 res = {"crash": f"hang: no result after {shard_timeout}s",
                        "journal": w.read_journal(), "stderr": w.read_stderr()}
